@@ -22,6 +22,18 @@ def value(s):
     return -v if sign else v
 
 
+def norm(s):
+    """(sign, significant digits, power of ten of the last digit) - the value without computing it"""
+    m = re.match(r'(-?)([0-9]+)(?:\.([0-9]+))?(?:[eE]([+-]?[0-9]+))?\Z', s)
+    sign, ip, fp, ep = m.group(1), m.group(2), m.group(3) or '', int(m.group(4) or '0')
+    d = (ip + fp).lstrip('0')
+    e10 = ep - len(fp)
+    if not d:
+        return ('', '', 0)
+    k = len(d) - len(d.rstrip('0'))
+    return (sign, d.rstrip('0'), e10 + k)
+
+
 def exp_of(s):
     m = re.search(r'[eE]([+-]?[0-9]+)\Z', s)
     return int(m.group(1)) if m else 0
@@ -156,7 +168,12 @@ class Prop:
             s = unhx(t[2])
             g = bool(GRAMMAR.match(s))
             if g and abs(exp_of(s)) > EXP_CAP:
-                return None  # outside C13's quantifier; what happens there is C02's business (finding F13e)
+                # outside C13's quantifier as far as refusal goes (C02's business, finding F13e); but an answer must be right
+                if out.startswith('ok '):
+                    st = unhx(out.split(' ')[1])
+                    if not re.match(r'-?(0|[1-9][0-9]*)(\.[0-9]+)?\Z', st) or norm(st) != norm(s):
+                        return 'String() denotes another value: %r -> %r' % (s, st[:80])
+                return None
         if out.startswith('panic') or out.startswith('TOOLCRASH'):
             return 'NewNumber does not return: ' + out
         if t[1] == 'N':
